@@ -11,8 +11,9 @@
 From Coq Require Import ZArith QArith List Bool.
 From Knut Require Import Model.Str Model.Dec Model.Date Model.Account Model.Ledger Model.Journal
      Model.Cli Model.Perf Model.Weights Model.CliPortfolio Spec.PortfolioSpec
+     Spec.PortfolioMapSpec
      Proofs.PortfolioDays Proofs.PortfolioReturns Proofs.PortfolioWeights Proofs.PortfolioWitness
-     Proofs.PortfolioProofs.
+     Proofs.PortfolioProofs Proofs.PortfolioTree Proofs.PortfolioMapping Proofs.PortfolioMapWitness.
 Import ListNotations.
 Open Scope Q_scope.
 
@@ -99,6 +100,56 @@ Theorem C20_top_100 : forall u m date v1 day_es before after,
 Proof. exact top_100. Qed.
 Print Assumptions C20_top_100.
 
+(* ---------------------------------------------------------------- weights: the mapping law (-m) *)
+
+(* Vocabulary (Spec/PortfolioMapSpec.v): [wn_find p r] the node at path p; [node_weight r p d] the
+   number the renderer reads there for date d (0 where there is no node); [map_entries m es0]
+   the entries es0 with Model/Weights.map_path applied to every path; [pf_unmapped cfg] the
+   same command without -m. *)
+
+(* for every universe, mapping, period ends and list of value records: the query without -m
+   does not panic, and the query with -m books the same entries, in the same order, with the
+   same dates and weights, on the paths map_path gives (or panics where map_path does) *)
+Theorem C20_mapped_entries : forall u m ends l,
+  exists es0, query_entries u [] ends l = WOk es0 /\
+    query_entries u m ends l = (match map_entries m es0 with Some es => WOk es | None => WPanic end).
+Proof.
+  intros u m ends l. destruct (query_entries_unmapped_ok u ends l) as [es0 H]. exists es0.
+  split; [exact H|exact (query_entries_map u m ends l es0 H)].
+Qed.
+Print Assumptions C20_mapped_entries.
+
+(* The mapping law on the nodes: for every configuration (universe, mapping, filters, window)
+   and journal on which `portfolio weights` runs, every path p and date d: the weight the
+   renderer reads at p in the report WITH the mapping is the sum of the weights of the entries
+   of the run WITHOUT the mapping that map_path sends to p or below it, on d.
+   [defined_entries]: no weight is a division by a zero total (Go: Inf/NaN); as in C20_group_sum,
+   sums with undefined weights are not numbers. *)
+Theorem C20_mapping_law : forall cfg ds es0 es p d,
+  weights_entries (pf_unmapped cfg) ds = COk es0 -> weights_entries cfg ds = COk es ->
+  defined_entries es0 ->
+  node_weight (propagate (report_of es)) p d == mapped_weight (pc_mapping cfg) es0 p d.
+Proof. exact mapping_law_nodes. Qed.
+Print Assumptions C20_mapping_law.
+
+(* hence: a node's weight = the entries the mapping folds into the node itself + the weights
+   of its children (a node can be both: booked on, and a group) *)
+Theorem C20_mapping_law_local : forall cfg ds es0 es p d x,
+  weights_entries (pf_unmapped cfg) ds = COk es0 -> weights_entries cfg ds = COk es ->
+  defined_entries es0 ->
+  wn_find p (propagate (report_of es)) = Some x ->
+  node_weight (propagate (report_of es)) p d ==
+  folded_weight (pc_mapping cfg) es0 p d +
+  qsum (map (fun c => node_weight (propagate (report_of es)) (p ++ [wn_seg c]) d) (wn_children x)).
+Proof. exact mapping_law_local. Qed.
+Print Assumptions C20_mapping_law_local.
+
+(* where the command with -m runs, the command without -m runs *)
+Theorem C20_unmapped_runs : forall cfg ds es,
+  weights_entries cfg ds = COk es -> exists es0, weights_entries (pf_unmapped cfg) ds = COk es0.
+Proof. exact weights_entries_unmapped_ok. Qed.
+Print Assumptions C20_unmapped_runs.
+
 (* ---------------------------------------------------------------- returns: one per period *)
 
 (* repaired wiring: for every journal and configuration with a non-empty window, `portfolio
@@ -179,3 +230,25 @@ Example C20_w2_returns :
   second_return (returns_gen (mkFixes true false) w2_cfg w2_journal) = Some (-1 # 2) /\
   second_return (returns_fixed w2_cfg w2_journal) = Some 0.
 Proof. split; [exact w2_pinned_filter|exact w2_repaired]. Qed.
+
+(* W3 (PortfolioMapWitness): universe Equity:US (AAPL), Equity:CH (NESN), Cash (CHF); `-m 1,^Equity:US`
+   folds AAPL into the row Equity, which keeps its member CH.  The node Equity is a leaf and a
+   group at once; the plain group law fails on the table, the mapping law holds; the hypotheses
+   of the mapping theorems hold of this run. *)
+Example C20_w3_partial_fold :
+  weights_entries w3_cfg w3_journal = COk w3_entries /\ weights_entries (pf_unmapped w3_cfg) w3_journal = COk w3_entries0 /\
+  defined_entries w3_entries0 /\
+  match wn_find [s_Equity] (propagate (report_of w3_entries)) with
+  | Some n => wn_leaf n = true /\ map wn_seg (wn_children n) = [s_CH]
+  | None => False
+  end /\
+  node_weight (propagate (report_of w3_entries)) [s_Equity] (jan 31) == 1 # 2 /\
+  folded_weight (pc_mapping w3_cfg) w3_entries0 [s_Equity] (jan 31) == 1 # 4 /\
+  node_weight (propagate (report_of w3_entries)) [s_Equity; s_CH] (jan 31) == 1 # 4 /\
+  groups_ok_b 0 2 (srows w3_table) = false /\
+  mapping_law_b 0 2 (pc_mapping w3_cfg) (srows w3_table0) (srows w3_table) = true.
+Proof.
+  destruct w3_runs as [H1 [H2 _]]. destruct w3_node_law as [H3 [H4 [H5 _]]]. destruct w3_laws as [H6 H7].
+  split; [exact H1|]. split; [exact H2|]. split; [exact w3_defined|]. split; [exact w3_leaf_and_group|].
+  split; [exact H3|]. split; [exact H4|]. split; [exact H5|]. split; [exact H6|exact H7].
+Qed.
